@@ -30,10 +30,11 @@ type ROp struct {
 }
 
 type RScript struct {
-	Run int   `json:"run"`
-	Max int   `json:"max"`
-	Min int   `json:"min"`
-	Ops []ROp `json:"ops"`
+	Run    int   `json:"run"`
+	Max    int   `json:"max"`
+	Min    int   `json:"min"`
+	Sorted bool  `json:"sorted,omitempty"` // reg-explore: the lowest-numbered members are eliminated / released; the last call follows a reset line
+	Ops    []ROp `json:"ops"`
 }
 
 type regEnv struct {
@@ -52,6 +53,19 @@ type regEnv struct {
 	status  int
 	script  RScript
 	mute    bool
+	dead    bool // a call panicked: the run ends there
+}
+
+// guard runs one call on the real regulator; a panic is recorded as the call's error and ends the run
+// (the regulator unlocks its mutex in deferred calls, so the snapshot hook still works afterwards)
+func (e *regEnv) guard(f func() error) (err error) {
+	defer func() {
+		if r := recover(); r != nil {
+			e.dead = true
+			err = fmt.Errorf("PANIC: %v", r)
+		}
+	}()
+	return f()
 }
 
 func pname(p int) string { return fmt.Sprintf("p%d", p) }
@@ -171,7 +185,10 @@ func (e *regEnv) add(n int, settle string) {
 	for i := 0; i < n; i++ {
 		ps = append(ps, e.nreg+1+i)
 	}
-	err := e.r.AddPlayers(pnames(ps))
+	if e.dead {
+		return
+	}
+	err := e.guard(func() error { return e.r.AddPlayers(pnames(ps)) })
 	if err == nil {
 		e.nreg += n
 	}
@@ -180,14 +197,20 @@ func (e *regEnv) add(n int, settle string) {
 
 func (e *regEnv) setStatus(s int) {
 	e.script.Ops = append(e.script.Ops, ROp{Op: "Status", N: s})
-	e.r.SetStatus(regulator.CompetitionStatus(s))
+	if e.dead {
+		return
+	}
+	err := e.guard(func() error { e.r.SetStatus(regulator.CompetitionStatus(s)); return nil })
 	e.status = s
-	e.emit("main", "SetStatus", -1, s, nil, "", 0, nil, "")
+	e.emit("main", "SetStatus", -1, s, nil, es(err), 0, nil, "")
 }
 
 // sync: the table first eliminates `out` of its members, then reports; received players sit down at once;
 // players to release stay until release() is called (the table has not yet carried out the instruction)
 func (e *regEnv) sync(t, out int, settle string) (release int, handed []int, quiet bool) {
+	if e.dead {
+		return 0, nil, false
+	}
 	e.script.Ops = append(e.script.Ops, ROp{Op: "Sync", T: t, N: out, Settle: settle})
 	if _, pending := e.pend[t]; pending {
 		// a table carries out the instruction it was given before it reports again
@@ -197,7 +220,9 @@ func (e *regEnv) sync(t, out int, settle string) (release int, handed []int, qui
 	mem, known := e.member[t]
 	if !known {
 		// an unknown (or broken and gone) table: refusal probe
-		rel, np, err := e.r.SyncState(tname(t), 0)
+		var rel int
+		var np []string
+		err := e.guard(func() (err error) { rel, np, err = e.r.SyncState(tname(t), 0); return })
 		e.emit("main", "SyncState", t, 0, nil, es(err), rel, pnums(np), settle)
 		return 0, nil, false
 	}
@@ -206,7 +231,9 @@ func (e *regEnv) sync(t, out int, settle string) (release int, handed []int, qui
 	}
 	e.elim = append(e.elim, mem[:out]...)
 	e.member[t] = append([]int{}, mem[out:]...)
-	rel, np, err := e.r.SyncState(tname(t), out)
+	var rel int
+	var np []string
+	err := e.guard(func() (err error) { rel, np, err = e.r.SyncState(tname(t), out); return })
 	if err == nil {
 		e.member[t] = append(e.member[t], pnums(np)...)
 		broken := e.r.GetTable(tname(t)) == nil
@@ -221,7 +248,7 @@ func (e *regEnv) sync(t, out int, settle string) (release int, handed []int, qui
 
 func (e *regEnv) release(t int, settle string) {
 	rel, ok := e.pend[t]
-	if !ok {
+	if !ok || e.dead {
 		return
 	}
 	e.script.Ops = append(e.script.Ops, ROp{Op: "Release", T: t, Settle: settle})
@@ -241,11 +268,14 @@ func (e *regEnv) release(t int, settle string) {
 		e.gone = append(e.gone, t)
 	}
 	delete(e.pend, t)
-	err := e.r.ReleasePlayers(tname(t), pnames(released))
+	err := e.guard(func() error { return e.r.ReleasePlayers(tname(t), pnames(released)) })
 	e.emit("main", "ReleasePlayers", t, 0, released, es(err), 0, nil, settle)
 }
 
 func (e *regEnv) nop(settle string) {
+	if e.dead {
+		return
+	}
 	e.emit("main", "nop", -1, 0, nil, "", 0, nil, settle)
 }
 
@@ -286,7 +316,7 @@ func (e *regEnv) settle(r *rand.Rand, capSweeps int) int {
 				e.release(t, "step")
 			}
 		}
-		if quiet || sweeps >= capSweeps {
+		if quiet || sweeps >= capSweeps || e.dead {
 			break
 		}
 		e.nop("sweep")
@@ -413,6 +443,9 @@ func cmdRegRandom(args []string) {
 }
 
 func replayReg(o *potsOut, s RScript) *regEnv {
+	if s.Sorted {
+		return replayRegExplored(o, s)
+	}
 	e := newRegEnv(o, s.Run, s.Max, s.Min)
 	for _, op := range s.Ops {
 		switch op.Op {
